@@ -44,7 +44,8 @@ ASSUMPTIONS = ['OpenSSL / the ssl module implement TLS and certificate verificat
 
 DEADLINE = 15.0
 _FX: Dict[str, Any] = {}
-GOOD_NAMES = ['good.test', 'a.good.test', 'localhost', 'optout.good.test']
+LONG_NAME = 'l' + 'o' * 40 + 'ng.' + 'sub' * 8 + '.good.test'      # 78 octets: longer than an X.509 commonName may be (64), a valid DNS name
+GOOD_NAMES = ['good.test', 'a.good.test', 'localhost', 'optout.good.test', LONG_NAME]
 
 
 def sh(*cmd: str, **kw: Any) -> None:
@@ -88,7 +89,21 @@ def fixture() -> Dict[str, Any]:
     leaf('good', 'good.test', all_san, 'oca', ['-days', '30'])
     leaf('selfsigned', 'good.test', all_san, None, [])
     leaf('wrongname', 'other.test', 'DNS:other.test', 'oca', ['-days', '30'])
-    leaf('expired', 'good.test', all_san, 'oca', ['-not_before', '20200101000000Z', '-not_after', '20200201000000Z'])
+    # an expired certificate: `openssl x509 -not_before/-not_after` needs OpenSSL >= 3.4, `openssl ca -startdate/-enddate` works
+    # with every version (the sandbox has 3.0 in /usr/bin and 3.5 in another PATH entry)
+    sh('openssl', 'ecparam', '-genkey', '-name', 'prime256v1', '-noout', '-out', P('expired-key.pem'))
+    sh('openssl', 'req', '-new', '-subj', '/CN=good.test', '-key', P('expired-key.pem'), '-out', P('expired.csr'))
+    with open(P('expired.ext'), 'w') as f:
+        f.write('subjectAltName=' + all_san + '\n')
+    os.makedirs(P('ca-newcerts'))
+    open(P('ca-index.txt'), 'w').close()
+    with open(P('ca-serial'), 'w') as f:
+        f.write('1000\n')
+    with open(P('ca.cnf'), 'w') as f:
+        f.write('[ ca ]\ndefault_ca = vf\n[ vf ]\nnew_certs_dir = %s\ndatabase = %s\nserial = %s\ndefault_md = sha256\npolicy = pol\n'
+                'unique_subject = no\ncopy_extensions = none\n[ pol ]\ncommonName = supplied\n' % (P('ca-newcerts'), P('ca-index.txt'), P('ca-serial')))
+    sh('openssl', 'ca', '-batch', '-notext', '-config', P('ca.cnf'), '-cert', P('oca-cert.pem'), '-keyfile', P('oca-key.pem'), '-in', P('expired.csr'),
+       '-out', P('expired-cert.pem'), '-startdate', '20200101000000Z', '-enddate', '20200201000000Z', '-extfile', P('expired.ext'))
     os.makedirs(P('certs'))
     _FX.clear()
     _FX.update(pid=os.getpid(), dir=d, P=P, origins={}, executors={})
@@ -406,7 +421,7 @@ def cleanup() -> None:
 @st.composite
 def cases(draw: Any) -> Dict[str, Any]:
     origin = draw(st.sampled_from(['good', 'good', 'good', 'selfsigned', 'wrongname', 'expired']))
-    host = draw(st.sampled_from(['good.test', 'a.good.test', 'localhost', 'optout.good.test', '127.0.0.1', '[::1]']))
+    host = draw(st.sampled_from(['good.test', 'a.good.test', 'localhost', 'optout.good.test', '127.0.0.1', '[::1]', LONG_NAME]))
     req = draw(G.request_spec(form='origin', host=host.encode(), framings=('none', 'cl', 'chunked'), max_body=300, max_headers=5,
                               versions=(b'HTTP/1.1',), plain_chunked=True))
     raw_len = len(G.render(req))
